@@ -457,7 +457,18 @@ HANDLERS['list'] = h_tuple('list')
 HANDLERS['int'] = h_int
 HANDLERS['float'] = h_float
 HANDLERS['complex'] = h_float
-HANDLERS['bool'] = lambda ip, st, a, kw, node: app('bool', P(a[0]))
+def h_bool(ip, st, a, kw, node):
+    x = a[0] if a else Const(False)
+    if isinstance(x, Const) and isinstance(x.value, bool):
+        return x
+    if x == NONE:
+        return Const(False)
+    if isinstance(x, Poly) and x.const_value() is not None:
+        return Const(x.const_value() != 0)
+    return app('bool', P(x))
+
+
+HANDLERS['bool'] = h_bool
 HANDLERS['abs'] = h_unary('abs')
 HANDLERS['round'] = lambda ip, st, a, kw, node: app('round', *[P(x) for x in a])
 HANDLERS['max'] = h_builtin_minmax('max')
